@@ -15,6 +15,7 @@ from sigma.exceptions import (
 from sigma.types import (
     SigmaString,
     SigmaType,
+    SigmaExpansion,
     SigmaFieldReference,
     SpecialChars,
 )
@@ -374,26 +375,36 @@ class ValueTransformation(DetectionItemTransformation):
         except IndexError:  # No type annotation found
             self.value_types = None
 
-    def apply_detection_item(self, detection_item: SigmaDetectionItem) -> SigmaDetectionItem | None:
-        """Call apply_value for each value and integrate results into value list."""
-        results = []
+    def _apply_values(self, field: str | None, values: list[SigmaType]) -> list[SigmaType] | None:
+        """Call apply_value for each value, returns the new value list or None if nothing changed."""
+        results: list[SigmaType] = []
         modified = False
-        for value in detection_item.value:
+        for value in values:
+            res = None
             if self.value_types is None or isinstance(
                 value, self.value_types
             ):  # run replacement if no type annotation is defined or matching to type of value
-                res = self.apply_value(detection_item.field, value)
-                if res is None:  # no value returned: drop value
-                    results.append(value)
-                elif isinstance(res, Iterable) and not isinstance(res, SigmaType):
-                    results.extend(res)
-                    modified = True
-                else:
-                    results.append(res)
-                    modified = True
-            else:  # pass original value if type doesn't matches to apply_value argument type annotation
+                res = self.apply_value(field, value)
+            if res is None and isinstance(value, SigmaExpansion):
+                # values expanded by a modifier (windash, base64offset) are values of the detection
+                # item like any other: transform them inside of the expansion
+                expanded = self._apply_values(field, value.values)
+                if expanded is not None:
+                    res = SigmaExpansion(expanded)
+            if res is None:  # no value returned: pass original value
                 results.append(value)
-        if modified:
+            elif isinstance(res, Iterable) and not isinstance(res, SigmaType):
+                results.extend(res)
+                modified = True
+            else:
+                results.append(res)
+                modified = True
+        return results if modified else None
+
+    def apply_detection_item(self, detection_item: SigmaDetectionItem) -> SigmaDetectionItem | None:
+        """Call apply_value for each value and integrate results into value list."""
+        results = self._apply_values(detection_item.field, detection_item.value)
+        if results is not None:
             detection_item.value = results
             return detection_item
         return None  # no replacement was made
